@@ -103,6 +103,67 @@ func runC13(c *Ctx) {
 		}
 	}
 
+	// ---------- R6: no map iteration order in an answer ----------
+	{
+		c.Rule("C13.R6", "ITER", "query code never builds a sequence or picks an element by ranging over a map (iteration order differs from run to run)", 0)
+		nm := 0
+		var fns []*ssa.Function
+		for f := range reach {
+			if c.P.IsLibFunc(f) && f.Blocks != nil {
+				fns = append(fns, f)
+			}
+		}
+		sort.Slice(fns, func(i, j int) bool { return FuncName(fns[i]) < FuncName(fns[j]) })
+		for _, f := range fns {
+			eachInstr(f, func(_ *ssa.BasicBlock, in ssa.Instruction) {
+				rg, ok := in.(*ssa.Range)
+				if !ok {
+					return
+				}
+				if _, isMap := rg.X.Type().Underlying().(*types.Map); !isMap {
+					return
+				}
+				// order matters when the body builds a sequence or leaves early; counting, summing and
+				// filling another map do not depend on the order
+				orderSensitive := false
+				for _, l := range loopsOf(f) {
+					isThis := false
+					for _, hi := range l.Header.Instrs {
+						if nx, ok := hi.(*ssa.Next); ok && nx.Iter == ssa.Value(rg) {
+							isThis = true
+						}
+					}
+					if !isThis {
+						continue
+					}
+					if !onlyExhaustionExit(l) {
+						orderSensitive = true
+					}
+					for b := range l.Blocks {
+						for _, bi := range b.Instrs {
+							if cl, ok := bi.(*ssa.Call); ok {
+								if bt, ok := cl.Call.Value.(*ssa.Builtin); ok && bt.Name() == "append" {
+									orderSensitive = true
+								}
+							}
+							if _, ok := bi.(*ssa.Return); ok {
+								orderSensitive = true
+							}
+						}
+					}
+				}
+				if !orderSensitive {
+					return
+				}
+				nm++
+				c.Fail("C13.R6", shortFn(f)+": range over a map", rg.Pos(), "a query ranges over a map: Go randomises the iteration order, so the order of the collected rules (and with it every tie broken by position) differs between identical queries")
+			})
+		}
+		if nm == 0 {
+			c.OK("C13.R6", "no map iteration reachable from a query", token.NoPos, fmt.Sprintf("%d functions inspected", len(fns)))
+		}
+	}
+
 	importRules(c, runC11, map[string]string{"C11.R4": "C13.R5"}, map[string]string{"C13.R5": "the memo states are deterministic functions of the lists: file retrieval reads exactly the stored line, the cache is keyed by the retrieved index (shared with C11.R4 / C19.R4)"})
 	importRules(c, runC19, map[string]string{"C19.R4": "C13.R5"}, nil)
 
